@@ -156,6 +156,32 @@ inline bool matrix_equals(const cpc_sketch& s, const Model& m, std::string& deta
   return false;
 }
 
+inline unsigned floor_log2_u64(uint64_t x) { unsigned p = 0; while (x >>= 1) ++p; return p; }
+// Coverage measure for the pair coder of the image (format documented in cpc_compressor_impl.hpp): the
+// stored pair list is sorted by row, each row delta is written as (delta >> b) in unary + b low bits with
+// b = floor(log2(k / num_pairs)).  Returns the largest row delta of the list in units of 2^b rows.
+// The list holds all coupons (sparse, hybrid), the coupons right of the window (pinned), or the
+// surprising zeros left of / ones right of the window (sliding).
+inline uint64_t max_row_gap_units(const Model& m) {
+  if (!m.dense || m.C == 0) return 0;
+  const Flavor f = flavor_of(m.lg_k, m.C);
+  const uint64_t k = m.k();
+  unsigned w = 0;
+  if (f == F_SLIDING) w = static_cast<unsigned>((8 * m.C - 19 * k) / (8 * k));
+  uint64_t pairs = 0, prev = 0, gap = 0;
+  for (uint64_t row = 0; row < k; ++row) {
+    const uint64_t bits = m.mat[row];
+    uint64_t pat;
+    if (f <= F_HYBRID) pat = bits;
+    else if (f == F_PINNED) pat = bits >> 8;
+    else pat = (bits & ~(uint64_t(0xff) << w)) ^ ((uint64_t(1) << w) - 1);
+    if (pat) { pairs += popcnt64(pat); if (row - prev > gap) gap = row - prev; prev = row; }
+  }
+  if (!pairs) return 0;
+  const uint64_t q = k / pairs;
+  return gap >> (q ? floor_log2_u64(q) : 0);
+}
+
 inline uint64_t dbits(double d) { uint64_t u; memcpy(&u, &d, 8); return u; }
 
 // (lg_k, C) -> estimate bits + matrix hash of the first merged sketch seen with that (lg_k, C) in this process
@@ -226,6 +252,11 @@ inline void roundtrip(const cpc_sketch& s, const Model& m, uint64_t seed, const 
   const Flavor f = flavor_of(m.lg_k, m.C);
   const std::string ctx = ctx0 + " lg_k=" + std::to_string(m.lg_k) + " C=" + std::to_string(m.C) + " flavor=" + flavor_name(f) +
     " offset=" + std::to_string(s.window_offset) + " merged=" + std::to_string(s.was_merged);
+  if (m.lg_k >= 9) {
+    const uint64_t units = max_row_gap_units(m);
+    if (units >= 256) { count("roundtrip_with_row_gap_ge_256_units"); count(std::string("roundtrip_row_gap_ge_256_units_") + flavor_name(f)); }
+    if (units >= 512) count("roundtrip_with_row_gap_ge_512_units");
+  }
   try {
     auto b0 = s.serialize(0);
     auto b8 = s.serialize(8);
